@@ -84,6 +84,7 @@ type JWorld struct {
 	VaryFormats bool // commodity directives draw their display format per version
 	Agg       bool // every version carries the aggregation block
 	DeepTree  bool // a.journal may include b.journal
+	Assertions bool  // every version carries a transaction with a cost and a balance assertion (C18)
 	BName     string // file name of document 3 ("b.journal" or a name that needs percent-encoding in URIs)
 }
 
@@ -119,7 +120,13 @@ func (w *JWorld) GenJText(c *simrt.Chooser, doc *JDoc, v int, includes []string)
 	}
 	if c.Pct("decl-com", 20) {
 		cm := pick(c, "decl-com", w.Pools.Commods)
+		if w.Assertions && c.Pct("decl-special-commodity", 50) {
+			cm = []string{"ASR", "CSX", "CST", "MRK", "TPL"}[c.Choose("special-commodity", 5)]
+		}
 		f := commodityFmt[cm]
+		if f == "" {
+			f = "1.00 " + cm
+		}
 		if w.VaryFormats {
 			// the display format of a commodity changes between versions: a stale
 			// format cache then shows in formatting answers
@@ -145,6 +152,16 @@ func (w *JWorld) GenJText(c *simrt.Chooser, doc *JDoc, v int, includes []string)
 			line("2024-01-05 aggpayee  ; aggtag:v", Occ{Kind: "payee", Name: "aggpayee", Start: 11, End: 19}, Occ{Kind: "tag", Name: "aggtag", Start: 23, End: 29}),
 			line(fmt.Sprintf("    agg:all  %d W", wt), Occ{Kind: "account", Name: "agg:all", Start: 4, End: 11}, Occ{Kind: "commodity", Name: "W", Start: 13 + len(fmt.Sprint(wt)) + 1, End: 13 + len(fmt.Sprint(wt)) + 2}),
 			line("    agg:sink", Occ{Kind: "account", Name: "agg:sink", Start: 4, End: 12}),
+			line(""))
+	}
+	if w.Assertions {
+		// commodities that occur only in a cost or in the balance assertion of an
+		// amount-less posting
+		lines = append(lines,
+			line("2024-02-05 asserted", Occ{Kind: "payee", Name: "asserted", Start: 11, End: 19}),
+			comLine("    assets:bank  = 100 ASR", "ASR", Occ{Kind: "account", Name: "assets:bank", Start: 4, End: 15}),
+			line("    assets:cash  5 CST @ 2 CSX", Occ{Kind: "account", Name: "assets:cash", Start: 4, End: 15}, Occ{Kind: "commodity", Name: "CST", Start: 19, End: 22}, Occ{Kind: "commodity", Name: "CSX", Start: 27, End: 30}),
+			line("    income:salary", Occ{Kind: "account", Name: "income:salary", Start: 4, End: 17}),
 			line(""))
 	}
 	nt := c.Choose("ntxn", 3)
@@ -203,6 +220,8 @@ func NewJWorld(c *simrt.Chooser, workspace bool, flags ...string) *JWorld {
 			w.DeepTree = true
 		case "formats":
 			w.VaryFormats = true
+		case "assertions":
+			w.Assertions = true
 		}
 	}
 	w.Env.Disk.Env["HOME"] = "/sim"
